@@ -25,6 +25,8 @@ def build_genc_campaign(tier, sd):
     cp = campaign.Campaign("genc", tier)
     fam = cp.meta["families"]
     for c in directed.charts():
+        if c.max_delay() > 0:
+            continue       # the scaffold has no timer
         cid = cp.add_chart(c)
         c.tags.append("D:" + c.name)
         ws = families.words(c, 2)
